@@ -1630,7 +1630,12 @@ Ctx.concrete = False
 
 def _ctx_uf_call(self, name, args):
     F = uf(name, len(args))
-    return SymReal(F(*[z3.simplify(to_term(a)) for a in args]))
+    terms = [z3.simplify(to_term(a)) for a in args]
+    if getattr(self, 'uf_normalize', False):
+        # canonical polynomial form of the arguments: congruence of applications at polynomially equal points becomes syntactic
+        from . import poly
+        terms = [(lambda n, t: t if n is None else z3.simplify(n))(poly.normalized_term(self, t), t) for t in terms]
+    return SymReal(F(*terms))
 
 
 Ctx.uf_call = _ctx_uf_call
